@@ -521,7 +521,7 @@ class SourceIndex:
                 depth = 0
                 for j, ch in enumerate(t):
                     if ch == '<': depth += 1
-                    elif ch == '>':
+                    elif ch == '>' and t[j - 1] != '-':
                         depth -= 1
                         if depth == 0: break
                 t = t[j + 1:].strip()
